@@ -5,6 +5,7 @@ import Norad.Lemmas.Determined
 import Norad.Lemmas.LayerDir
 import Norad.Lemmas.PlanRuns
 import Norad.Lemmas.SaveTable
+import Norad.Lemmas.LayerTable
 /-!
 # C09 — a saved tree depends only on the font and stays inside the target
 
@@ -464,5 +465,24 @@ theorem source_optional_gates :
           (some .featuresNonEmpty, .writeFeatures), (some .dataNonEmpty, .writeData),
           (some .imagesNonEmpty, .createImages), (some .imagesNonEmpty, .writeImages)] := by
   rw [saveTable_parses]; decide
+
+open C08.Source Generated.SaveOrder in
+/-- **The model's `planLayer` is exactly the regenerated table of `Layer::save_with_options`** (`src/layer.rs`, the
+    layer-info helper inlined): `create_dir`, contents.plist, layerinfo.plist under the gate
+    `!(self.color.is_none() && self.lib.is_empty())` - the model's `info ≠ 0` -, then one glif per `contents` entry; for
+    every layer and target, and for both values of the two facts inside the model's one layer-info token (is there a
+    colour; is the lib non-empty). -/
+theorem source_layer_plan_is_layer_table {β : Type} (cfg : Cfg β) (t : APath) (l : ALayer) (color libne : Bool) :
+    (parseLayerTable layerTable).map (fun rows => layerRowsPlan cfg t l color libne rows) = some (planLayer cfg t l) := by
+  rw [layerTable_parses]
+  exact congrArg some (layerRows_model cfg t l color libne)
+
+open C08.Source in
+/-- non-vacuity: the interpreter writes layerinfo.plist for a layer with info and not for one without -/
+example :
+    (layerRowsPlan cfgN ["t".toList] { name := "a".toList, dir := "glyphs".toList, info := 1, entries := [] } true false
+      modelLayerRows).length = 3 ∧
+    (layerRowsPlan cfgN ["t".toList] { name := "a".toList, dir := "glyphs".toList, info := 0, entries := [] } false false
+      modelLayerRows).length = 2 := by decide
 
 end C09
